@@ -36,7 +36,7 @@ def generate(src):
     n = [0]
     def s_ret(s, r):
         n[0] += 1
-        oblige(s, "serialize_error/post: a present error is stored as prepare_exception(error, json), an absent one as None  [C19]", to_val(r) == If(truthy(v), prep(v, JSON), Val.none))
+        oblige(s, "serialize_error/post: a present error is stored as prepare_exception(error, json), an absent one as None  [C19]", to_val(r) == If(to_val(v) != Val.none, prep(v, JSON), Val.none))
         reach(s, f"serialize_error/reach@return#{n[0]}")
     Ex(H).run(SER, st, s_ret, lambda s, x: oblige(s, "serialize_error/raises: nothing of its own  [C19]", BoolVal(False)))
     # _validate_error
